@@ -22,10 +22,12 @@ def ufun(name: str, arity: int):
 
 
 class FieldExec:
-    def __init__(self, fn: ast.FunctionDef, known_calls: Dict[str, str]):
-        """known_calls: dotted callee name -> uninterpreted function name ('pair:<f>' for 2-tuple results)"""
+    def __init__(self, fn: ast.FunctionDef, known_calls: Dict[str, str], helpers: Optional[Dict[str, ast.FunctionDef]] = None):
+        """known_calls: dotted callee name -> uninterpreted function name ('pair:<f>' for 2-tuple results); helpers: methods of the same class,
+        a call `self.<h>(...)` / `cls.<h>(...)` to a helper whose body is a single `return <expr>` is inlined"""
         self.fn = fn
         self.known = known_calls
+        self.helpers = helpers or {}
         self.self_name = fn.args.args[0].arg
         self.env: Dict[str, Any] = {a.arg: z3.Const("arg_" + a.arg, V) for a in fn.args.args[1:]}
         self.fields0: Dict[str, Any] = {}
@@ -58,6 +60,22 @@ class FieldExec:
                     base = f[5:]
                     return ("pair", ufun(base + "0", len(args))(*args), ufun(base + "1", len(args))(*args))
                 return ufun(f, len(args))(*args)
+            # one-expression helper of the same class (e.g. a static `_make_key(seed)`): inline it
+            if isinstance(e.func, ast.Attribute) and isinstance(e.func.value, ast.Name) and e.func.value.id in (self.self_name, "cls", "Config") \
+                    and e.func.attr in self.helpers and not e.keywords:
+                h = self.helpers[e.func.attr]
+                body = [s for s in h.body if not (isinstance(s, ast.Expr) and isinstance(s.value, ast.Constant))]
+                hp = [a.arg for a in h.args.args]
+                static = any(isinstance(d, ast.Name) and d.id == "staticmethod" for d in h.decorator_list)
+                if not static:
+                    hp = hp[1:]
+                if len(body) == 1 and isinstance(body[0], ast.Return) and body[0].value is not None and len(hp) == len(e.args):
+                    saved = dict(self.env)
+                    self.env = dict(zip(hp, [self.ev(a) for a in e.args]))
+                    try:
+                        return self.ev(body[0].value)
+                    finally:
+                        self.env = saved
             raise Outside(f"call to {name} has no contract")
         raise Outside(f"{type(e).__name__} at line {getattr(e, 'lineno', '?')}")
 
